@@ -19,6 +19,7 @@ static int vh_S[N][N];       /* vh_S[i][j]: entry (row i, AC column j) structura
 static int vh_S_ready;
 static int vh_rowdone[N];
 int vh_pivot_calls, vh_singular_col = -1;
+static void vh_pivot_reset(void) { int i; vh_S_ready = 0; for (i = 0; i < N; ++i) vh_rowdone[i] = 0; vh_pivot_calls = 0; vh_singular_col = -1; }
 extern int vh_fpat_at(int i, int j); /* pattern of the matrix being factored: row i, ORIGINAL column j */
 
 int_t VH_PIVOTL(const int_t pnum, const int_t jcol, const VH_REAL u, yes_no_t *usepr, int_t *perm_r,
@@ -45,6 +46,11 @@ int_t VH_PIVOTL(const int_t pnum, const int_t jcol, const VH_REAL u, yes_no_t *u
             for (i = 0; i < N; ++i) vh_S[i][j] = vh_fpat_at(i, c);
         vh_S_ready = 1;
     }
+#ifdef VH_DIAG_PIVOT
+    /* symmetric mode with threshold 0: the original diagonal entry is the pivot (C16) */
+    for (isub = nsupc; isub < nsupr; ++isub) if (lsub_ptr[isub] == inv_perm_c[jcol]) pivptr = isub;
+    vh_assert(pivptr >= 0 && vh_S[inv_perm_c[jcol]][jcol], "the diagonal row is a structurally non-zero candidate of its column");
+#endif
     for (k = 0; k < N && pivptr < 0; ++k) {
         r = vh_pivpref[k];
         if (vh_rowdone[r] || !vh_S[r][jcol]) continue;
